@@ -27,6 +27,13 @@ import (
 
 const hole = "{{ s }}"
 
+// valid JavaScript: comments that begin with /*/ or //*, hold an unbalanced
+// quote, or stand inside string literals
+var jsTrickyComments = []string{
+	"/*/ that's */", "/*/ ' */", "/*/ \" */", "/**/", "/*/*/", "/***/", "/*/\n'*/", "// it's\n", "//*'\n", "//\"\n", "//* \" */\n",
+	"/* a\n * b'\n */", "var c = '/*'; ", "var d = \"//\"; ", "var e = \"*/\"; ", "var f = '/*/'; ", "x = 1 /*/ 2' */ + 3;",
+}
+
 var ctxWords = []string{"hello", "a b", "x &amp; y", "1 &lt; 2", "é", "it's", "say \"hi\"", "50%", "a=b", "#1"}
 var scriptEnds = []string{"</script>", "</script>", "</SCRIPT>", "</script >", "</script\n>", "</script\t>", "</Script>", "</SCRIPT >", "</script\r\n>"}
 var styleEnds = []string{"</style>", "</style>", "</STYLE>", "</style >", "</style\n>", "</style\t>", "</Style>"}
@@ -147,7 +154,12 @@ func (g *docGen) script() {
 	g.b.WriteString(open)
 	n := 1 + g.r.Intn(5)
 	for i := 0; i < n; i++ {
-		switch g.r.Intn(12) {
+		switch g.r.Intn(14) {
+		case 12:
+			// comments whose opener is followed by a slash or a star, with an unbalanced quote inside
+			g.b.WriteString(g.pick(jsTrickyComments))
+		case 13:
+			g.b.WriteString(g.pick(jsTrickyComments) + " var t" + fmt.Sprint(i) + " = " + g.maybeHole(100) + ";")
 		case 0, 1:
 			g.b.WriteString("var a" + fmt.Sprint(i) + " = \"" + g.pick([]string{"", "x ", "it's ", "<b>", "&amp;"}) + g.maybeHole(85) + g.pick([]string{"", " y", "</b>"}) + "\";")
 		case 2, 3:
@@ -518,6 +530,8 @@ func init() {
 			// lexer_ctx_sim evaluated by the model: on the fragment of the reference tokenizer
 			// (RefTok.v) the context of every show is the abstraction of the reference state
 			c.Line("ctxsim", Hx(src), "ok:31")
+			// the same for the reference with options (first version, corrected fragment, proved sub-fragment)
+			c.Line("ctxsim2", Hx(src), "ok:313131")
 			c.Count("cases")
 		}
 		if in := c.ReplayInput(); in != nil {
@@ -538,6 +552,17 @@ func init() {
 		for _, e := range styleEnds {
 			emit("<style>p { color: red }" + e + "<p title='{{ s }}'>x</p>")
 			emit("<style>p { font-family: '" + e + "<a href='{{ s }}'>x</a>")
+		}
+		// comments in script and style elements: openers followed by a slash or a star, quotes inside
+		// comments, comments inside strings, a show after them
+		commentInputs(c, 4, func(src string, format int) {
+			if format == 1 {
+				emit(src)
+			}
+		})
+		for _, cm := range jsTrickyComments {
+			emit("<script>" + cm + " var n = {{ s }};</script>")
+			emit("<script>var a = \"x\"; " + cm + "\nvar n = {{ s }}; var b = '{{ s }}';</script>")
 		}
 		for i := 0; i < c.N; i++ {
 			s := ctxDocument(c.Rng)
@@ -621,6 +646,12 @@ func init() {
 				}
 				check(ctxDoc{"index.html", map[string]string{"index.html": "<a href=" + q + pre + hole + q + " id=z>x</a><img src=" + q + pre + hole + q + "><p title=" + q + pre + hole + q + ">t</p>"}}, ctxHostile, "")
 			}
+		}
+		// a show in code position and in a string after a comment whose opener is followed by a
+		// slash or a star and that holds an unbalanced quote
+		for _, cm := range jsTrickyComments {
+			check(ctxDoc{"index.html", map[string]string{"index.html": "<script>" + cm + " var n = " + hole + ";</script>"}}, ctxHostile, "")
+			check(ctxDoc{"index.html", map[string]string{"index.html": "<script>var a = \"x\"; " + cm + "\nvar n = " + hole + "; var b = '" + hole + "';</script><p title=\"" + hole + "\">t</p>"}}, ctxHostile, "")
 		}
 		for i := 0; i < c.N; i++ {
 			src := ctxDocument(c.Rng)
